@@ -60,7 +60,11 @@ class P(Property):
             'ids up to 2^62-8, repeated shutdowns; observed: GOAWAY frames parsed from the control stream bytes, streams returned by '
             'accept(), STOP_SENDING/RESET codes, accept answers; every implementation trace is judged by the extracted Coq line monitor. '
             'cgoaway: the REAL client driver + SendRequest, every sequence of length <= 5 over '
-            '{GOAWAY(id) for id in 0,4,8,12 and non-request ids 1,2,3,5,6, drive, send_request} (thorough: also length 6,7 over a 6-letter alphabet) plus seeded random ones with ids up to 2^62-1. '
+            '{GOAWAY(id) for id in 0,4,8 and non-request ids 2,3, drive, poll send_request (new call or the one parked for stream credit), '
+            'stream credit := 0, grant 1 stream} (thorough: also length 6,7 over a 6-letter alphabet) plus seeded random ones with ids up to 2^62-1; '
+            'errors are observed as returned code + variant + the code passed to the transport close(). Every 6th (thorough: 3rd) case is '
+            're-run in a seeded environment variant: default config (grease on), 3 uni-stream credits, other peer uni streams first, '
+            'chunked control-stream preamble, late control stream. '
             'non-trivial = distinct cases in which accept() took at least one stream from the transport (goaway) or the driver '
             'processed at least one GOAWAY (cgoaway)')
 
@@ -122,7 +126,7 @@ class P(Property):
                     toks.append('P')
             out.append('goaway ' + ','.join(toks))
         # client
-        calpha = ['g0', 'g4', 'g8', 'g12', 'g1', 'g2', 'g3', 'g5', 'g6', 'D', 'R']
+        calpha = ['g0', 'g4', 'g8', 'g3', 'g2', 'D', 'R', 'z', 'h1']
         for L in range(1, 6):
             for toks in itertools.product(calpha, repeat=L):
                 if 'D' not in toks and 'R' not in toks:
@@ -130,7 +134,7 @@ class P(Property):
                 out.append('cgoaway ' + ','.join(toks))
         if tier != 'quick':
             for L in (6, 7):
-                for toks in itertools.product(['g0', 'g4', 'g8', 'g2', 'D', 'R'], repeat=L):
+                for toks in itertools.product(['g4', 'g8', 'D', 'R', 'z', 'h1'], repeat=L):
                     if 'D' not in toks:
                         continue
                     out.append('cgoaway ' + ','.join(toks))
@@ -149,12 +153,25 @@ class P(Property):
                         toks.append('g%d' % min(2 ** 62 - 4, cur + 4 * rng.choice([1, 2, 100])))
                     else:
                         toks.append('g%d' % (min(2 ** 62 - 4, cur) + rng.choice([1, 2, 3])))
-                elif r < 0.75:
+                elif r < 0.70:
                     toks.append('D')
-                else:
+                elif r < 0.88:
                     toks.append('R')
+                elif r < 0.94:
+                    toks.append('z')
+                else:
+                    toks.append('h%d' % rng.choice([1, 1, 2]))
             out.append('cgoaway ' + ','.join(toks))
-        return out
+        # environment variants of the same histories (the model does not depend on them): grease on (the default
+        # configuration), only 3 uni streams granted (the grease stream cannot open), other peer uni streams first,
+        # control stream type byte / SETTINGS chunked, control stream late
+        envs = ['.g', '.g3', '.3', '.u', '.q', '.t', '.l', '.gu3', '.gqt3', '.gul3', '.qtl']
+        step = 6 if tier == 'quick' else 3
+        extra = []
+        for i in range(0, len(out), step):
+            fam, rest = out[i].split(' ', 1)
+            extra.append(fam + rng.choice(envs) + ' ' + rest)
+        return out + extra
 
     def spec_ok(self, case, out, spec):
         if spec is None:
@@ -162,7 +179,7 @@ class P(Property):
         if not out.startswith('ok '):
             return False
         w = case.split()
-        if w[0] == 'goaway':
+        if w[0].split('.')[0] == 'goaway':
             sv = spec.split(' ', 1)
             if len(sv) == 2 and sv[1] == out[3:]:
                 return sv[0] == 'line-ok'
